@@ -32,6 +32,10 @@ Proof.
   - inversion H; subst. rewrite Hf. pose proof (cz_nonneg f l). lia.
   - pose proof (IH _ H Hf). destruct (f a); lia.
 Qed.
+Lemma cz_ge_in {A} (f : A -> bool) l i x : nth_error l i = Some x -> b2z (f x) <= cz f l.
+Proof.
+  intros H. unfold b2z. destruct (f x) eqn:E; [pose proof (cz_pos_in f l i x H E); lia|apply cz_nonneg].
+Qed.
 Lemma cz_zero_all {A} (f : A -> bool) l : cz f l = 0 -> forall i x, nth_error l i = Some x -> f x = false.
 Proof.
   intros H i x Hx. destruct (f x) eqn:E; auto. pose proof (cz_pos_in f l i x Hx E). lia.
@@ -210,17 +214,17 @@ Ltac czin := match goal with
   | Hn : nth_error (clos _) _ = Some _ |- _ =>
       try (pose proof (cz_pos_in c_needcl _ _ _ Hn eq_refl)); try (pose proof (cz_pos_in c_pendcb _ _ _ Hn eq_refl));
       try (pose proof (cz_pos_in c_send _ _ _ Hn eq_refl)); try (pose proof (cz_pos_in c_cleanT _ _ _ Hn eq_refl));
-      try (pose proof (cz_pos_in c_ret _ _ _ Hn eq_refl))
+      try (pose proof (cz_pos_in c_ret _ _ _ Hn eq_refl)); pose proof (cz_ge_in c_casbad _ _ _ Hn)
   | Hn : nth_error (gors _) _ = Some _ |- _ =>
       try (pose proof (cz_pos_in (gl c_needcl) _ _ _ Hn eq_refl)); try (pose proof (cz_pos_in (gl c_pendcb) _ _ _ Hn eq_refl));
       try (pose proof (cz_pos_in (gl c_send) _ _ _ Hn eq_refl)); try (pose proof (cz_pos_in (gl c_cleanT) _ _ _ Hn eq_refl));
       try (pose proof (cz_pos_in g_own _ _ _ Hn eq_refl)); try (pose proof (cz_pos_in g_re _ _ _ Hn eq_refl));
       try (pose proof (cz_pos_in g_act _ _ _ Hn eq_refl)); try (pose proof (cz_pos_in g_run _ _ _ Hn eq_refl));
-      try (pose proof (cz_pos_in g_cb _ _ _ Hn eq_refl))
+      try (pose proof (cz_pos_in g_cb _ _ _ Hn eq_refl)); pose proof (cz_ge_in (gl c_casbad) _ _ _ Hn)
   | _ => idtac end.
 
 Ltac fin s :=
-  cb; rw_eqs; rw_cnt; cb; try assumption; try (intros; assumption); uc; zeqh; uc; cb; try lia; czin; try lia; czpos s; lia.
+  cb; rw_eqs; rw_cnt; cb; try assumption; try (intros; assumption); uc; zeqh; uc; cb; try lia; czin; cb; uc; zeqh; cb; try lia; czpos s; lia.
 
 (* ====================================================================================================
    Base invariants (any initial callback mode)
